@@ -12,7 +12,7 @@ RULE = ("cdist(U,U) of a whole universe in one call for every weight triple of t
 ASSUMPTIONS = ["long strings are covered as a boundary family (lengths 254..400 x 3 shapes), not all strings of that length",
                "weights*length kept below 2^24 (float32 exactness of the generic scorer path is not relied on above that)",
                "rapidfuzz cdist workers=-1 answered with one thread in the bulk spaces; free-running-threads space uses the untouched function"]
-REQUIRED_CLASSES = {"all": ["asymmetric-ins-del", "long-string>255", "condensed-layout", "kwargs-forwarded", "free-running-threads", "several-metric-objects-alive", "falsy-metric-object", "extreme-aspect-ratio", "none-and-falsy-option-values", "clone-dominated-collection", "trailing-nul"]}
+REQUIRED_CLASSES = {"all": ["asymmetric-ins-del", "long-string>255", "condensed-layout", "kwargs-forwarded", "free-running-threads", "several-metric-objects-alive", "falsy-metric-object", "extreme-aspect-ratio", "none-and-falsy-option-values", "clone-dominated-collection", "trailing-nul", "every-collection-size"]}
 MIN_OUTCOMES = 10
 SINGLE_THREAD_RAPIDFUZZ = True
 
@@ -70,6 +70,10 @@ def spaces(tier):
         for w in ((1, 1, 1), (1, 2, 3), (2, 1, 3)):
             yield ("free", w)
 
+    def gen_sizes():
+        for m in range(2, 1031 if q else 2061):
+            yield ("size", m)
+
     def gen_clones():
         for pi in range(len(CLONE_PAIRS)):
             for w in ((1, 2, 3), (3, 1, 2), (1, 1, 1)):
@@ -82,6 +86,7 @@ def spaces(tier):
         Space("functional-pdist-cdist", gen_func, "Lists(U(AB,2),4|5) with a metric encoding (a,b) and a forwarded keyword; default metric"),
         Space("extreme-aspect-ratios", gen_aspect, "cdist of 1-3 anchors against 70-300 comparisons (and the transposed shapes) x 3 weight triples; matrices of about 2^22 entries (2049x2048, 1025x4096, 4097x1024, 2048x2049) with asymmetric weights", per_case=True),
         Space("clone-dominated-collections", gen_clones, "every sequence of length 9 over two distinct strings (4 pairs, one differing by a trailing NUL only) x 3 weight triples: pdist, cdist against a 4-element comparison list", per_case=True),
+        Space("every-collection-size", gen_sizes, "pdist of EVERY collection size m = 2..1030 (thorough ..2060) of homopolymers A^((5i) mod 13): the whole condensed vector of WeightedLevenshtein(1,2,3), Levenshtein and (m <= 300) the functional pdist against a 13x13 table computed by the reference model (block / chunk thresholds at any size show here)", shards=64),
         Space("free-running-rapidfuzz-threads", gen_free, "cdist(U(AB,4),U(AB,4)) x 3 weight triples with rapidfuzz's own thread pool untouched", per_case=True),
     ]
 
@@ -168,6 +173,26 @@ def check_case(case, acc):
             acc.fail("WeightedLevenshtein/cdist/aspect-ratio", case, "directional distances anchors -> comparisons", r if raised(r) else "differs", note="shape %dx%d" % (na, nb))
             return
         acc.ok((na, nb, w), nontrivial=True)
+    elif kind == "size":
+        m_ = case[1]
+        acc.cls("every-collection-size")
+        L = np.array([(5 * i) % 13 for i in range(m_)])
+        X = ["A" * int(l) for l in L]
+        iu = np.triu_indices(m_, 1)
+        for name, w, fn in (("WeightedLevenshtein", (1, 2, 3), mk((1, 2, 3)).calc_pdist_vector), ("Levenshtein", (1, 1, 1), Levenshtein().calc_pdist_vector),
+                            ("functional-pdist", (1, 1, 1), pyrepseq.pdist)):
+            if name == "functional-pdist" and m_ > 300:      # one Python-level metric call per pair: sizes up to 300 only
+                continue
+            T = np.array([[ref_wlev("A" * a, "A" * b, *w) for b in range(13)] for a in range(13)])
+            exp = T[L[iu[0]], L[iu[1]]]
+            v = acc.call(fn, list(X))
+            if raised(v) or np.asarray(v).shape != exp.shape or not np.array_equal(np.asarray(v), exp):
+                bad = None if raised(v) or np.asarray(v).shape != exp.shape else int(np.flatnonzero(np.asarray(v) != exp)[0])
+                acc.fail("%s/every-collection-size/pdist" % name, case, {"length": int(exp.shape[0]), "first_wrong_index": bad, "expected_there": None if bad is None else float(exp[bad])},
+                         v if raised(v) else {"length": int(np.asarray(v).shape[0]), "value_there": None if bad is None else float(np.asarray(v)[bad])})
+                return
+            acc.extra["entries_decided"] += int(exp.shape[0])
+        acc.ok(("size", m_ % 64), nontrivial=True)
     elif kind == "clones":
         _, pi, w = case
         a, b = CLONE_PAIRS[pi]
